@@ -389,9 +389,12 @@ class BaseGeo(BaseTransform):
         for k, v in kwargs.items():
             if k.startswith("style"):
                 style_kwargs[k] = v
-            else:
+            elif k != "parent":
                 setattr(obj_copy, k, v)
         if style_kwargs:
             style_kwargs = self._process_style_kwargs(**style_kwargs)
             obj_copy.style.update(style_kwargs)
+        if "parent" in kwargs:
+            # the copy joins the collection only when all other arguments have been accepted
+            obj_copy.parent = kwargs["parent"]
         return obj_copy
